@@ -306,11 +306,14 @@ func (s *synRunner) emit(in synInput, fsys fs.FS, mpds string, dirBefore, dirAft
 	s.c.Res.Inputs[id] = in
 	if out.panic != "" {
 		s.c.Fail(id, "panic:loader:"+firstWords(out.panic), "the loader panicked: "+out.panic, in)
-		return id
 	}
 	mode := modeTerm(dirAfter, write)
-	s.terms = append(s.terms, fmt.Sprintf("{| c_id := %s; c_mode := %s; c_consolidate := %s;\n c_mpds := %s;\n c_cache := %s;\n o_err := %s;\n o_assets := %s;\n o_cache := %s |}",
-		id, mode, lib.Cbool(consolidate), mpds, cacheTerm(dirBefore, in.Layouts), lib.Cbool(out.err != nil), assetsTerm(out.assets), cacheAfterTerm(dirAfter, in.Layouts)))
+	cacheAfter := cacheAfterTerm(dirAfter, in.Layouts)
+	if out.panic != "" {
+		cacheAfter = "[]" // whatever was written before the panic is not compared
+	}
+	s.terms = append(s.terms, fmt.Sprintf("{| c_id := %s; c_mode := %s; c_consolidate := %s;\n c_mpds := %s;\n c_cache := %s;\n o_err := %s; o_panic := %s;\n o_assets := %s;\n o_cache := %s |}",
+		id, mode, lib.Cbool(consolidate), mpds, cacheTerm(dirBefore, in.Layouts), lib.Cbool(out.err != nil), lib.Cbool(out.panic != ""), assetsTerm(out.assets), cacheAfter))
 	s.nCases++
 	return id
 }
